@@ -7,7 +7,7 @@ requests (strings are code point arrays):
   {"op":"join","pairs":[[a,b]…]}            → [s…]
   {"op":"relpath","cwd":s,"pairs":[[path,start]…]} → [s|null…]
   {"op":"unify","fold":[[cp,[cp…]]…],"s":[s…]} → [s|null…]
-  {"op":"kind"}                              → "stringPrefix" | "sepTerminated"   (from Gen.Fsys)
+  {"op":"kind"}                              → "stringPrefix" | "sepTerminated" [+ "+fold"]   (from Gen.Fsys)
   {"op":"fs","kind":null|"stringPrefix"|"sepTerminated","cwd":s,"tree":[[[comp…],id]…],
    "members":[{"root":s,"constrain":b,"pfx":s}…],"chain":b,"fold":[…],"paths":[s…]}
       chain=false (first member only, prefix ignored) →
@@ -45,11 +45,12 @@ def sJ (s : Str) : Json := Wire.codesOfStr s
 def nJ (n : Nat) : Json := Json.num (JsonNumber.fromNat n)
 def lJ {α} (f : α → Json) (l : List α) : Json := Json.arr (l.map f).toArray
 
-def kindOf (j : Json) : Except String ContainKind :=
+def kindOf (j : Json) : Except String Cfg :=
   match j with
-  | Json.null => pure Gen.Fsys.containKind
-  | Json.str "stringPrefix" => pure .stringPrefix
-  | Json.str "sepTerminated" => pure .sepTerminated
+  | Json.null => pure Gen.Fsys.cfg
+  | Json.str "stringPrefix" => pure ⟨.stringPrefix, false⟩
+  | Json.str "sepTerminated" => pure ⟨.sepTerminated, false⟩
+  | Json.str "sepTerminated+fold" => pure ⟨.sepTerminated, true⟩
   | _ => throw "kind?"
 
 def treeOf (j : Json) : Except String Tree := do
@@ -94,7 +95,8 @@ def handle (j : Json) : Except String Json := do
     let ss ← strArr (← j.getObjVal? "s")
     pure (lJ (fun s => match unifyPath f s with | some r => sJ r | none => Json.null) ss)
   | "kind" =>
-    pure (Json.str (match Gen.Fsys.containKind with | .stringPrefix => "stringPrefix" | .sepTerminated => "sepTerminated"))
+    pure (Json.str ((match Gen.Fsys.cfg.contain with | .stringPrefix => "stringPrefix" | .sepTerminated => "sepTerminated")
+      ++ (if Gen.Fsys.cfg.foldSlash then "+fold" else "")))
   | "fs" =>
     let k ← kindOf ((j.getObjVal? "kind").toOption.getD Json.null)
     let cwd ← Wire.strOfCodes (← j.getObjVal? "cwd")
